@@ -87,7 +87,9 @@ func (g *Gen) bulkKeys() [][]byte {
 // prefixes of each other for ListKeys.
 var DefaultKeys = [][]byte{[]byte("a"), []byte("b"), []byte("ab"), []byte("ba"), []byte("abc"), []byte("abd"), []byte("b\x00"), []byte("abcd"), []byte(""),
 	// bytes at the top of the range: a prefix ending in 0xff has no "next" prefix of the same length
-	[]byte("a\xff"), []byte("a\xff\xff"), []byte("\xff")}
+	[]byte("a\xff"), []byte("a\xff\xff"), []byte("\xff"),
+	// an other-case twin and characters that are wildcards in SQL patterns: a listing done by pattern match instead of byte comparison shows
+	[]byte("A"), []byte("a_"), []byte("a%"), []byte("%")}
 var DefaultChildren = [][]byte{[]byte("x"), []byte("y"), []byte("xy"), []byte("z\x00"), []byte("")}
 var DefaultValues = [][]byte{[]byte(""), []byte("v"), []byte("w"), []byte("a"), []byte("\x00")}
 
